@@ -282,7 +282,13 @@ def judge(spec, tier="quick"):
     def route_set():
         m = build(spec)
         for a in spec["assignments"]:
-            for g, val in zip(_groups_for(spec, a), a["vals"]):
+            groups = _groups_for(spec, a)
+            if len(groups) == 1 and a["on"] == "nodes":
+                # one shared value: set it through the drawn view itself, which may contain rows that do
+                # not own the key (e.g. compartments without the channel) - they must stay untouched
+                the_view(m, spec, a).set(a["key"], float(a["vals"][0]))
+                continue
+            for g, val in zip(groups, a["vals"]):
                 v = m.select(edges=[int(i) for i in g]) if a["on"] == "edges" else (gn.view_of(m, g) if N > 1 else m)
                 v.set(a["key"], float(val))
         return m
